@@ -46,11 +46,13 @@ class Layout:
 class SpecGeom:
     """pulse geometry from the spec record + layout"""
 
-    def __init__(self, rec, layout, ground, radius, segs=None):
+    def __init__(self, rec, layout, ground, radius, segs=None, radii=None):
         """segs: optional {(object, segment): (p1, p2)} -- the segmentation of tapered wires
            (where the segment ends lie is the subject of C13; WHICH segments a pulse joins
            comes from the specification)"""
         self.segs = segs
+        self.radii = radii          # optional {object: radius}: the surrogate kernel depends on the
+                                    # radius of the source half (as the true kernel does)
         self.rec = rec
         self.ground = ground
         objs = rec['objs']
@@ -102,7 +104,8 @@ class SpecGeom:
             ground[1] = True
             gnd_sgn[1] = -1.0
         sign = [sg[0] * gnd_sgn[0], sg[1] * gnd_sgn[1]]
-        return dict(pt=np.array(pt, float), ends=[np.array(e, float) for e in ends], dirs=[ua, ub],
+        rad = [self.radii[pu['sa'][0]], self.radii[pu['sb'][0]]] if self.radii else [self.radius, self.radius]
+        return dict(rfac=[rfac(rad[0]), rfac(rad[1])], pt=np.array(pt, float), ends=[np.array(e, float) for e in ends], dirs=[ua, ub],
                     lens=[La, Lb], dir_sgn=sg, sign=sign, gnd_sgn=gnd_sgn, ground=ground,
                     grounded=any(ground))
 
@@ -171,14 +174,15 @@ class SpecGeom:
                     xn = pn['pt'] * kv
                     a_m, a_p = self.half(pn, -1) * kv, self.half(pn, 1) * kv
                     e_m, e_p = pn['ends'][0] * kv, pn['ends'][1] * kv
-                    u = psi(xm, xn, a_p) * pn['sign'][1]
-                    v = psi(xm, a_m, xn) * pn['sign'][0]
+                    f0, f1 = pn['rfac']
+                    u = psi(xm, xn, a_p) * pn['sign'][1] * f1
+                    v = psi(xm, a_m, xn) * pn['sign'][0] * f0
                     g = pn['gnd_sgn']
                     vec3 = (np.array([1, 1, g[1]]) * u * pn['dirs'][1] +
                             np.array([1, 1, g[0]]) * v * pn['dirs'][0]) * kv
                     dterm = w2 * (vec3 @ zzz)
-                    u12 = ((psi(hm_m, xn, e_p) - psi(hm_p, xn, e_p)) / pn['lens'][1] +
-                           (psi(hm_p, e_m, xn) - psi(hm_m, e_m, xn)) / pn['lens'][0])
+                    u12 = ((psi(hm_m, xn, e_p) - psi(hm_p, xn, e_p)) / pn['lens'][1] * f1 +
+                           (psi(hm_p, e_m, xn) - psi(hm_m, e_m, xn)) / pn['lens'][0] * f0)
                     Z[mi, ni] += kk * (dterm + u12)
         return Z
 
@@ -201,20 +205,28 @@ class SpecGeom:
                 g = p['gnd_sgn']
                 D0 = p['dirs'][0] * np.array([1, 1, g[0]]) * kv * p['sign'][0]
                 D1 = p['dirs'][1] * np.array([1, 1, g[1]]) * kv * p['sign'][1]
-                A = D0 * psi(hm, x) + D1 * psi(x, hp)
-                gphi = grad(x, ep) / p['lens'][1] - grad(em, x) / p['lens'][0]
+                f0, f1 = p['rfac']
+                A = D0 * psi(hm, x) * f0 + D1 * psi(x, hp) * f1
+                gphi = grad(x, ep) / p['lens'][1] * f1 - grad(em, x) / p['lens'][0] * f0
                 E += cur * kk * (k2 * A - gphi)
-                H += cur * kk * (np.cross(grad(hm, x), D0) + np.cross(grad(x, hp), D1))
+                H += cur * kk * (np.cross(grad(hm, x), D0) * f0 + np.cross(grad(x, hp), D1) * f1)
         return -1j * mfac * E, H / (4 * math.pi)
+
+
+def rfac(r):
+    """dependence of the surrogate kernel on the radius of the source half"""
+    return 1.0 + 300.0 * r
 
 
 def psi_surrogate(self, vec2, vecv, k, scale, pidx, exact=False, fvs=0):
     v2 = np.asarray(vec2, float)
     vv = np.asarray(vecv, float)
     d = vv - v2
-    L = abs(scale) * self.pulses.seg_len.T[int(scale > 0)][pidx]
+    half = int(scale > 0)
+    L = abs(scale) * self.pulses.seg_len.T[half][pidx]
+    r = self.pulses.radius.T[half][pidx]
     val = np.sum(v2 * v2, axis=-1) + np.sum(v2 * d, axis=-1) + np.sum(d * d, axis=-1) / 3.0
-    return (val * L).astype(complex)
+    return (val * L * rfac(r)).astype(complex)
 
 
 def install_surrogate():
@@ -223,14 +235,20 @@ def install_surrogate():
     Mininec.psi = psi_surrogate
 
 
-def build_real(rec, layout, ground, f, radius, media=None, taper=None):
-    """taper: optional random.Random -- wires with >= 2 segments get a seeded taper type"""
+def build_real(rec, layout, ground, f, radius, media=None, taper=None, taper_max=False, vary_radius=True):
+    """taper: optional random.Random -- wires with >= 2 segments get a seeded taper type; with
+       taper_max wires of >= 5 segments also get a maximum segment length, which produces a run
+       of equal-length segments next to the tapered ones"""
     ws = []
     for o in rec['input']:
         tag = o['tag'] or None
-        w = Wire(o['ns'], *layout.point(o['p1']), *layout.point(o['p2']), radius, tag=tag)
+        k_in = len(ws)
+        w = Wire(o['ns'], *layout.point(o['p1']), *layout.point(o['p2']),
+                 radius * (1.0 + 0.5 * (k_in % 3)) if vary_radius else radius, tag=tag)
         if taper is not None and o['ns'] >= 2:
             w.segtype = taper.choice([0, 1, 2, 3])
+            if taper_max and o['ns'] >= 5 and w.segtype:
+                w.taper_max = 1.25 * w.wire_len / o['ns']
         ws.append(w)
     if media is None:
         media = [ideal_ground] if ground else None
@@ -243,15 +261,45 @@ def real_segmentation(m):
             for g in m.geo for s in g.segments}
 
 
-def build_pair(rec, rnd, ground, f, unit, radius, taper_prob=0.5):
+LONG_INPUTS = [
+    ([dict(p1=101, p2=1, ns=9, tag=0)], True),
+    ([dict(p1=1, p2=101, ns=8, tag=0)], True),
+    ([dict(p1=1, p2=2, ns=9, tag=0)], False),
+    ([dict(p1=101, p2=1, ns=7, tag=0), dict(p1=1, p2=2, ns=6, tag=0)], True),
+    ([dict(p1=2, p2=1, ns=6, tag=0), dict(p1=1, p2=101, ns=7, tag=0)], True),
+    ([dict(p1=1, p2=2, ns=7, tag=0), dict(p1=2, p2=3, ns=5, tag=0), dict(p1=2, p2=4, ns=6, tag=0)], False),
+    ([dict(p1=1, p2=2, ns=6, tag=0), dict(p1=3, p2=2, ns=6, tag=0)], False),
+]
+
+
+def long_records(chk):
+    """records of wires with many segments (for runs of equal-length segments on tapered wires)"""
+    from . import topo as T
+    out = []
+    for ground in (True, False):
+        sel = [i for i, g in LONG_INPUTS if g == ground]
+        for inp, rec in zip(sel, T.spec_records(chk, sel, ground, name='long-%s' % ground)):
+            out.append((rec, ground))
+    return out
+
+
+def build_pair(rec, rnd, ground, f, unit, radius, taper_prob=0.5, taper_max=False, vertical=False):
     """real model + specification geometry on the same seeded coordinates; with probability
        taper_prob the wires are tapered (unequal segments make first / last segment differ)"""
     lay = Layout(rec['input'], rnd, unit)
+    if vertical:
+        # grounded wires stand vertically (the fill treats vertical grounded wires specially)
+        for o in rec['input']:
+            for a, b in ((o['p1'], o['p2']), (o['p2'], o['p1'])):
+                if a > 100 and b < 100:
+                    lay.xyz[b] = lay.xyz[a] + np.array([0, 0, np.linalg.norm(lay.xyz[b] - lay.xyz[a])])
     tp = random.Random(rnd.random()) if rnd.random() < taper_prob else None
     try:
-        m = build_real(rec, lay, ground, f, radius, taper=tp)
+        m = build_real(rec, lay, ground, f, radius, taper=tp, taper_max=taper_max)
     except (AssertionError, ValueError):
         tp = None
         m = build_real(rec, lay, ground, f, radius)
-    geo = SpecGeom(rec, lay, ground, radius, segs=real_segmentation(m) if tp is not None else None)
+    # radii per object of the specification (objects in tag order; the radius is input data)
+    radii = {g.n + 1: float(g.r) for g in m.geo}
+    geo = SpecGeom(rec, lay, ground, radius, segs=real_segmentation(m) if tp is not None else None, radii=radii)
     return m, geo
